@@ -1137,7 +1137,7 @@ func (c *Ctx) classifyLen(e *encFunc, fm *family, r encRow, l leaf) string {
 				return "len(" + fk + ")"
 			}
 			// length of (a version of) a byte buffer
-			if afm, off, ok := e.famOf(arg); ok && off.isConst() && off.C == 0 {
+			if afm, off, ok := e.famOf(arg); ok && off.isConst() && off.C == 0 && (isByteSlice(arg.Type()) || isAppendCall(arg) == nil) {
 				// final? no append to that family can execute after this write
 				final := true
 				for _, s := range afm.Segs {
@@ -1180,6 +1180,14 @@ func (c *Ctx) classifyLen(e *encFunc, fm *family, r encRow, l leaf) string {
 						names = append([]string{"?"}, names...)
 					}
 					cur = a2.Call.Args[0]
+				}
+				// the chain has to start from an empty list (nil, or make with length 0): anything else adds elements
+				if k, isK := cur.(*ssa.Const); !(isK && k.Value == nil) {
+					if mk, isMk := cur.(*ssa.MakeSlice); !isMk || !f.LFOf(mk.Len).isConst() || f.LFOf(mk.Len).C != 0 {
+						if isAppendCall(cur) == nil {
+							names = append([]string{"?"}, names...)
+						}
+					}
 				}
 				return "count(" + strings.Join(names, "+") + ")"
 			}
